@@ -1634,14 +1634,17 @@ class Entity(Instance):
 
         attributes = info.attributes
 
+        def collect_entity_insts(instances):
+            # instances created inside (nested) blocks belong to this entity too
+            for inst in instances:
+                if isinstance(inst, EntityInst):
+                    if not inst.extern():
+                        yield inst
+                elif isinstance(inst, Block):
+                    yield from collect_entity_insts(inst._subblocks)
+
         sub_entities = IdSet()
-        sub_entities.update(
-            [
-                inst
-                for inst in instances
-                if isinstance(inst, EntityInst) and not inst.extern()
-            ]
-        )
+        sub_entities.update([*collect_entity_insts(instances)])
 
         self._name = info.name
         self._instances: list[Instance] = instances
